@@ -256,6 +256,23 @@ def masking(index: RepoIndex, rep, rule: str, pipe: Pipeline) -> None:
             src(vis_parts[0][1].slice) in ((f'({pos}.y, {pos}.x)', f'{pos}.yx',
                                             f'({pos}.yx[0], {pos}.yx[1])') if yx is None
                                            else (f'({yx[0]}, {yx[1]})',))
+        if not guard_ok:
+            # semantic reading: the store happens exactly when the cell is not visible and no
+            # earlier check of the function raised
+            from ..guards import f_and as _and, parse_guard, prop_equiv
+            idx_t = f'{pos}.y, {pos}.x' if yx is None else f'{yx[0]}, {yx[1]}'
+            raises_ = [w.expand_formula(strip_iter(x.guard), stop=[g, pipe.vis_name])
+                       for x in w.events if x.kind == 'raise' and x.order < e.order
+                       and not x.loops]
+            want_f = _and(parse_guard(f'not {pipe.vis_name}[{idx_t}]'),
+                          *[f_not(r_) for r_ in raises_])
+            full = conj
+            for xp in extra_parts:
+                full = _and(full, xp)
+            try:
+                guard_ok = prop_equiv(full, want_f) is None
+            except AnalysisError:
+                guard_ok = False
         reason = []
         if not val_ok:
             reason.append(f'stores `{src(e.value) if e.value is not None else None}` instead of Hidden()')
